@@ -86,6 +86,10 @@ func (v *StructSchema) process(ctx *p.SchemaCtx) {
 			ctx.AddIssue(ctx.IssueFromUnknownError(err))
 			return
 		}
+		if newDp == nil {
+			// e.g. an empty JSON object: a record in which every field is absent
+			newDp = &p.EmptyDataProvider{}
+		}
 		dataProv = newDp
 	} else {
 		newDp, err := p.TryNewAnyDataProvider(ctx.Data)
